@@ -132,3 +132,37 @@ Theorem c08_racing_cut_refuted :
     /\ tail_cut (filter mr_keep l) (head_seq (l ++ [f])) a <> cut_point (l ++ [f]) a.
 Proof. exact racing_cut_refuted. Qed.
 Print Assumptions c08_racing_cut_refuted.
+
+(* 5. WHICH checkpoints.  The selected checkpoints are visible cumulative checkpoints, at most max_levels of them; the
+   last one has the largest to_seq of all visible cumulative checkpoints (on a tie the frame with the largest seq);
+   each earlier one is the largest at or below half of its successor's to_seq (same tie rule); and the ladder stops
+   early only when nothing lies at or below half of its lowest to_seq (or that is <= 1).  Both rules, every thread. *)
+Theorem c08_hierarchy_spec : forall fixed from n l,
+  let E := elig fixed from l in
+  let H := hierarchy fixed from n l in
+  (length H <= n)%nat
+  /\ incl H E
+  /\ (H = [] <-> (n = O \/ E = []))
+  /\ (forall latest rest, rev H = latest :: rest ->
+        (forall e, In e E -> ck_to e <= ck_to latest /\ (ck_to e = ck_to latest -> ck_seq e <= ck_seq latest))
+        /\ ladderE E (ck_to latest) rest
+        /\ ((length H < n)%nat ->
+             let final := last (map ck_to rest) (ck_to latest) in
+             final <= 1 \/ forall e, In e E -> final / 2 < ck_to e)).
+Proof. exact hierarchy_spec. Qed.
+Print Assumptions c08_hierarchy_spec.
+
+Example c08_hierarchy_example :
+  map ck_seq (hierarchy false 60 3 hier_log) = [63; 64; 65]
+  /\ map ck_to (hierarchy false 60 3 hier_log) = [7; 20; 41]
+  /\ hierarchy true 60 3 hier_log = []
+  /\ map ck_to (hierarchy false 60 2 hier_log) = [20; 41]
+  /\ map ck_to (hierarchy false 6 3 hier_log) = [1; 3].
+Proof. exact hierarchy_example. Qed.
+
+(* the decision cause "no_supported_compaction_checkpoint" is dead: when no cumulative checkpoint is visible, the latest
+   visible checkpoint (if any) is of another kind *)
+Theorem c08_no_supported_cause_unreachable : forall P texts evs l from a,
+  p_max_refs P <> O -> d_cause (fst (compile_with P texts evs l from a)) <> 1.
+Proof. exact no_supported_cause_unreachable. Qed.
+Print Assumptions c08_no_supported_cause_unreachable.
